@@ -45,13 +45,13 @@ CHECKS = {
     ),
     "C01": dict(
         technique="Lean 4 theorems over facts regenerated from the Go source (every map range on the replicated path classified by body shape; every clock/environment/goroutine use pinned outside the apply path) plus general order-insensitivity lemmas for each shape; the model run with all maps permuted after every entry and the real code run twice on the same histories",
-        text="Proved: each shape of map iteration that occurs on the apply path (collect+sort, set insertion, independent per-element update, early exit with a unique match) is insensitive to the iteration order; the list of map-range sites and their shapes, and the list of impure calls, are re-extracted from the source on every run and must equal the classified tables. That the handlers are congruent under map permutation is exercised, not proved: the Lean model is run with every map of the state permuted after every entry and must produce identical output and dumps, and the real code is run twice (Go randomises iteration) and compared byte for byte. Partial: the per-handler permutation congruence is not a theorem.",
+        text="Proved (Props/C01Congr.lean): the model's behaviour does not depend on the order of its maps — for states that are permutations of one another (all maps, nested member maps and channel lists included) every one of the 41 handlers, processMessage and applyEntry give the same kind of result, equivalent states and the same output list with the same ids, replies and bytes and recipient lists that are permutations (C01_handlers_congr, C01_replicas_agree), hence two replicas that apply the same log stay equivalent and emit the same outputs (C01_history); Inv/GInv transfer along the equivalence. The only extra hypothesis is that hold keys are duplicate-free (preserved by every entry; a concrete counterexample shows it is needed). Also proved: order-insensitivity lemmas per shape of map iteration; regenerated on every run: the table of all map range sites with their shapes and of all clock/environment/goroutine uses, which must equal the classified tables. The tie of the model to the Go code is the correspondence run (outputs + full dumps), the model run with all maps permuted after every entry, and the real code run twice.",
         design_ref="DESIGN.md §4 C01",
         note="Trusts: Lean kernel; tools/extract (range-shape classifier); the shape -> insensitivity argument per site is by reading (recorded next to each site in Props/C01.lean); raft delivers the same log to all nodes.",
     ),
     "C03": dict(
         technique="Lean 4 model of Marshal->Unmarshal-into-a-fresh-instance (saveLoad) with theorems on the restored state; field-coverage tables regenerated from serialize.go and the struct declarations; histories with save+load cuts on the real code compared with the same histories without cuts and with the model",
-        text="Proved (see Props/C03.lean): every field of Session (except the transient deleted mark), channel, banPattern, svshold and config.Network is restored by Unmarshal and written by Marshal (regenerated on every run, so a new field without serialization breaks the theorem); theorems on saveLoad relate the restored state to the original under the state invariant. The 'every continuation' half is exercised: random histories with cuts after random entries run on the real code, and every later output to live sessions and every state dump must equal the run without cuts; the model's saveLoad is compared with the real round trip. Partial: continuation equivalence is not a theorem (needs congruence of all handlers under map reordering, see C01).",
+        text="Proved: under the state invariant and Canon (executable forms evaluated at every cut of every run), Marshal->Unmarshal gives the same state up to the rebuilt indexes (C03_state_strong: lists restored verbatim, nick index pointwise equal), the restored state satisfies the invariants again, the round trip is idempotent, and — with the permutation congruence of C01 — every continuation from the restored state gives equivalent states and the same outputs as from the original (C03_continuation; hypothesis ServersExact: the server list holds no ids of deleted links, whose only effect is a recipient id that names no live session — a concrete history shows the hypothesis is needed for equality up to permutation). Field coverage of Marshal/Unmarshal against the struct declarations is regenerated on every run. Real Marshal/Unmarshal is compared with the model at random cuts, and histories with cuts are compared with the same histories without cuts on the real code (outputs to live sessions + full dumps).",
         design_ref="DESIGN.md §4 C03",
         note="Trusts: Lean kernel; tools/extract; the protobuf wire codec round-trips the decoded snapshot (C18 exercises it).",
     ),
@@ -63,7 +63,7 @@ CHECKS = {
     ),
     "C10": dict(
         technique="Lean 4 theorems about the POST handler's decision model and the marker update (client entries and messages of death), regenerated facts pinning the dedupe test and its position in handlePostMessage; retry scenarios on the real api.HTTP handlers over an in-process raft node (snapshot, restart, SIGKILL)",
-        text="Proved on the decision model: a POST whose client message id equals the session's marker is acknowledged without proposing an entry, any number of times; the FSM sets the marker before processing, and also for entries skipped as message of death; a closed session refuses the retry. The dedupe condition, its bare return and its position before the leader check/proxy/apply are re-extracted from postmessage.go on every run. Whether handlers leave the marker alone is covered by the IRC-layer correspondence and by the retry runs on the real handlers (partial: not yet a theorem over all handlers).",
+        text="Proved on the decision model: a POST whose client message id equals the session's marker is acknowledged without proposing an entry, any number of times; the FSM sets the marker before processing, and also for entries skipped as message of death; a closed session refuses the retry. The dedupe condition, its bare return and its position before the leader check/proxy/apply are re-extracted from postmessage.go on every run. Proved over all 41 handlers and all entry types: only the FSM's marker update writes the marker (C10_handlers_keep_marker, C10_client_entry_marker, C10_death_entry_marker), along any history a session's marker is the client message id of its last client/death entry (C10_marker_is_last_cmid), and a retry of that entry is acknowledged without a proposal (C10_retry_after_history).",
         design_ref="DESIGN.md §4 C10",
         note="Trusts: Lean kernel; tools/extract; raft commit semantics; retries arrive after the first copy was applied (property's quantifier).",
     ),
@@ -75,13 +75,13 @@ CHECKS = {
     ),
     "C16": dict(
         technique="Lean 4 theorems about the config handler's decision model and the FSM's Config case; regenerated facts for the revision test and the proposed entry; sequences of valid/invalid/stale/future posts on the real handlers with snapshot+restore and SIGKILL",
-        text="Proved: accepted iff the body parses and names the current revision; a rejected update proposes nothing; an accepted update, applied on any node, installs exactly that configuration with revision+1 and touches nothing else; unparsable entries are skipped; GLINE writes the ban into the replicated configuration. Sequences are executed on the real handlers (exhaustive up to length 4 in the thorough tier). WhitelistedOrigins must survive snapshot+restart (was lost; fixed in 60bc8a0).",
+        text="Proved: accepted iff the body parses and names the current revision; a rejected update proposes nothing; an accepted update, applied on any node, installs exactly that configuration with revision+1 and touches nothing else; unparsable entries are skipped; over all handlers and entry types the configuration changes only through Config entries and an IRC operator's GLINE, which only adds the ban (C16_handlers_keep_config, C16_gline_only_bans, C16_entry_config_cases, C16_config_entry_frame, C16_history_keeps_config). Sequences are executed on the real handlers (exhaustive up to length 4 in the thorough tier). WhitelistedOrigins must survive snapshot+restart (was lost; fixed in 60bc8a0).",
         design_ref="DESIGN.md §4 C16",
         note="Trusts: Lean kernel; tools/extract; BurntSushi/toml as the parser; posts are issued one after another.",
     ),
     "C17": dict(
         technique="Lean 4 theorems about the session lookup and expiry models, regenerated comparison/skip conditions; lookups on every prefix of generated histories (= every lag) against the real IRCServer and the model; real-clock expiry runs",
-        text="Proved: 'no such session' is answered only for an id that is not stored and lies strictly below the last processed id (which, ids being assigned in log order, can never be created later); ids at or beyond it are 'not yet seen'; stored sessions are always found; the sweep proposes exactly the client sessions idle longer than the configured expiration and never a services pseudo-client. The end-of-session clauses (nick free, left all channels) follow from the IRC-layer invariant proofs (C14).",
+        text="Proved: 'no such session' is answered only for an id that is not stored and lies strictly below the last processed id (which, ids being assigned in log order, can never be created later); ids at or beyond it are 'not yet seen'; stored sessions are always found; the sweep proposes exactly the client sessions idle longer than the configured expiration and never a services pseudo-client. Proved: after a DeleteSession entry, QUIT, KILL or a ban the session is gone, its nickname is free and no channel lists it (C17_*_ends_session), the nick index never points to a missing session, and 'no such session' is final (C17_nosuch_is_final, via the bound C17_lastProcessed_bounded_partial; lastProcessed itself is not monotone — counterexample proved — because client entries record the session's id).",
         design_ref="DESIGN.md §4 C17",
         note="Trusts: Lean kernel; tools/extract; entry ids increase with the log (raft indexes).",
     ),
